@@ -1462,7 +1462,19 @@ func (d *Data) moveElementInLabels(ctx *datastore.VersionedCtx, batch storage.Ba
 		return err
 	}
 	if oldLabel == newLabel {
-		return nil
+		if oldLabel == 0 {
+			return nil
+		}
+		// Same body so counts don't change, but the label's element list stores positions and
+		// must still reflect the move.
+		tk := NewLabelTKey(oldLabel)
+		elems, err := getElementsNR(ctx, tk)
+		if err != nil {
+			return fmt.Errorf("err getting elements for label %d: %v", oldLabel, err)
+		}
+		elems.delete(from)
+		elems.add(ElementsNR{moved})
+		return putBatchElements(batch, tk, elems)
 	}
 
 	var delta DeltaModifyElements
